@@ -11,13 +11,15 @@ BOUNDARY = [0, 1, -1, 2, 3, 7, 31, 32, 100, -100, 255, 32768, 65536, 2147483647,
 SMALL = [0, 1, -1, 2, 3, 5, 7, 10, -3, 100]
 OUT_SIGS = ["signal-X", "signal-Y", "signal-Z", "signal-V", "signal-U"]
 
+# defaults are sentinels (distinct primes that occur nowhere else): they identify the input's constant
+# combinator independently of its label
 INPUT_POOL = [
-    ("a", "signal-A", 11),
-    ("b", "signal-B", 13),
-    ("c", "iron-plate", 17),
-    ("d", "signal-A", 19),  # same type as a: two-colour cases
-    ("u", None, 23),  # untyped: compiler-chosen signal
-    ("w", "water", 29),
+    ("a", "signal-A", 10007),
+    ("b", "signal-B", 10009),
+    ("c", "iron-plate", 10037),
+    ("d", "signal-A", 10039),  # same type as a: two-colour cases
+    ("u", None, 10061),  # untyped: compiler-chosen signal
+    ("w", "water", 10067),
 ]
 
 
@@ -136,7 +138,7 @@ def fam_expr(index, depth=None):
 def fam_expr_fixed():
     """hand-written C01 programs: one representative per construct / documented rule"""
     A, B, C = V("a"), V("b"), V("c")
-    ins3 = [["input", "a", "signal-A", 11], ["input", "b", "signal-B", 13], ["input", "c", "iron-plate", 17]]
+    ins3 = [["input", "a", "signal-A", 10007], ["input", "b", "signal-B", 10009], ["input", "c", "iron-plate", 10037]]
     progs = []
 
     def add(name, body, ins=ins3):
@@ -186,13 +188,13 @@ def fam_expr_fixed():
     add("prec16", [["sig", "o", ["proj", ["neg", ["bin", "**", A, K(2)]], "signal-X"]]])
     add("reuse", [["sig", "m", ["bin", "+", A, B]], ["sig", "o", ["proj", ["bin", "*", V("m"), V("m")], "signal-X"]]])
     add("reuse2", [["sig", "m", ["bin", "*", A, K(3)]], ["sig", "o", ["proj", ["bin", "+", ["bin", "+", V("m"), V("m")], V("m")], "signal-X"]]])
-    add("same-type", [["sig", "o", ["bin", "-", A, V("d")]]], ins=ins3 + [["input", "d", "signal-A", 19]])
-    add("same-type2", [["sig", "o", ["proj", ["bin", "*", ["bin", "+", A, V("d")], ["bin", "-", A, V("d")]], "signal-X"]]], ins=ins3 + [["input", "d", "signal-A", 19]])
+    add("same-type", [["sig", "o", ["bin", "-", A, V("d")]]], ins=ins3 + [["input", "d", "signal-A", 10039]])
+    add("same-type2", [["sig", "o", ["proj", ["bin", "*", ["bin", "+", A, V("d")], ["bin", "-", A, V("d")]], "signal-X"]]], ins=ins3 + [["input", "d", "signal-A", 10039]])
     add("sel-pattern", [["sig", "o", ["proj", ["bin", "+", ["cond", ["cmp", ">", A, K(0)], B], ["cond", ["cmp", "<=", A, K(0)], C]], "signal-X"]]])
     add("clamp", [["sig", "o", ["proj", ["bin", "+", ["cond", ["cmp", ">", A, K(100)], K(100)], ["cond", ["cmp", "<=", A, K(100)], A]], "signal-X"]]])
     add("int-var", [["int", "k", ["bin", "+", K(4), K(3)]], ["sig", "o", ["proj", ["bin", "*", A, V("k")], "signal-X"]]])
-    add("untyped", [["sig", "o", ["bin", "+", V("u"), K(1)]]], ins=[["input", "u", None, 23]])
-    add("untyped2", [["sig", "o", ["proj", ["bin", "*", V("u"), A], "signal-X"]]], ins=ins3 + [["input", "u", None, 23]])
+    add("untyped", [["sig", "o", ["bin", "+", V("u"), K(1)]]], ins=[["input", "u", None, 10061]])
+    add("untyped2", [["sig", "o", ["proj", ["bin", "*", V("u"), A], "signal-X"]]], ins=ins3 + [["input", "u", None, 10061]])
     add("multi-out", [["sig", "o", ["proj", ["bin", "+", A, B], "signal-X"]], ["sig", "p", ["proj", ["bin", "-", A, B], "signal-Y"]], ["sig", "q", ["proj", ["bin", "*", A, B], "signal-Z"]]])
     add("cond-compound", [["sig", "o", ["cond", ["and", ["cmp", ">", A, K(3)], ["cmp", "<", B, K(9)]], C]]])
     add("cond-or", [["sig", "o", ["cond", ["or", ["cmp", ">", A, K(3)], ["cmp", "<", B, K(9)]], C]]])
@@ -209,3 +211,367 @@ def fam_expr_fixed():
 def corpus_c01(tier):
     n = 60 if tier == "quick" else 400
     return fam_expr_fixed() + [fam_expr(i) for i in range(n)]
+
+
+# ======================================================================================
+#  C02 bundles
+# ======================================================================================
+
+B_INPUTS = [("a", "signal-A", 10007), ("c", "iron-plate", 10037), ("p", "copper-plate", 10069), ("s", "signal-S", 10079), ("t", "signal-A", 10091), ("w", "water", 10067)]
+B_CONST_MEMBERS = [("signal-B", 5), ("coal", -3), ("signal-C", 0), ("steel-plate", 100), ("signal-D", -2147483648), ("wood", 7)]
+
+
+def _bundle_literal(rnd, ins, avoid=()):
+    """returns (expr, member signal set)"""
+    members, elems = set(avoid), []
+    style = rnd.choice(["const", "inputs", "mixed", "mixed"])
+    n = rnd.choice([1, 2, 2, 3])
+    for _ in range(n):
+        if style == "const" or (style == "mixed" and rnd.random() < 0.5):
+            cands = [m for m in B_CONST_MEMBERS if m[0] not in members]
+            if not cands:
+                continue
+            sig, val = rnd.choice(cands)
+            elems.append(["lit", sig, K(val)])
+            members.add(sig)
+        else:
+            cands = [(n_, t) for (n_, t, _d) in ins if t not in members and n_ not in ("s", "t")]
+            if not cands:
+                continue
+            n_, t = rnd.choice(cands)
+            elems.append(V(n_))
+            members.add(t)
+    if not elems:
+        elems.append(["lit", "signal-B", K(5)])
+        members.add("signal-B")
+    return ["bundle", elems], members - set(avoid)
+
+
+def fam_bundle(index):
+    rnd = random.Random(f"bundle-{index}")
+    ins = [B_INPUTS[0], B_INPUTS[1]] + rnd.sample(B_INPUTS[2:], rnd.choice([1, 2, 3]))
+    names = [n for (n, _t, _d) in ins]
+    stmts = [["input", n, t, d] for (n, t, d) in ins]
+    lit, members = _bundle_literal(rnd, ins)
+    stmts.append(["bun", "b0", lit])
+    cur, k = "b0", 0
+    scalars = [n for n in names if n in ("s", "t", "w")] or ["a"]
+
+    def scalar():
+        return V(rnd.choice(scalars)) if rnd.random() < 0.5 else K(rnd.choice(SMALL + [-2147483648, 2147483647]))
+
+    steps = rnd.choice([1, 1, 2, 2, 3])
+    for _ in range(steps):
+        kind = rnd.choice(["arith", "arith", "filter", "filterk", "gate", "nest"])
+        k += 1
+        name = f"b{k}"
+        if kind == "arith":
+            op = rnd.choice(ARITH)
+            rhs = scalar()
+            if op == "**":
+                rhs = K(rnd.choice([0, 1, 2, 3]))
+            if op in ("<<", ">>") and rhs[0] == "k":
+                rhs = K(rnd.choice([0, 1, 4, 31]))
+            stmts.append(["bun", name, ["bin", op, V(cur), rhs]])
+        elif kind == "filter":
+            stmts.append(["bun", name, ["cond", ["cmp", rnd.choice(CMPS), V(cur), scalar()], V(cur)]])
+        elif kind == "filterk":
+            stmts.append(["bun", name, ["cond", ["cmp", rnd.choice(CMPS), V(cur), scalar()], K(rnd.choice([1, 1, 5, -1]))]])
+        elif kind == "gate":
+            stmts.append(["bun", name, ["cond", ["cmp", rnd.choice(CMPS), V(rnd.choice(scalars)), K(rnd.choice(SMALL))], V(cur)]])
+        else:
+            lit2, m2 = _bundle_literal(rnd, ins, avoid=members)
+            if not m2:
+                k -= 1
+                continue
+            members |= m2
+            stmts.append(["bun", name, ["bundle", [V(cur)] + lit2[1]]])
+        cur = name
+    tail = rnd.choice(["none", "any", "all", "sel", "anyall"])
+    if tail in ("any", "anyall"):
+        stmts.append(["sig", "q_any", ["cmp", rnd.choice(CMPS), ["any", V(cur)], K(rnd.choice(SMALL))]])
+    if tail in ("all", "anyall"):
+        stmts.append(["sig", "q_all", ["cmp", rnd.choice(CMPS), ["all", V(cur)], K(rnd.choice(SMALL))]])
+    if tail == "sel":
+        stmts.append(["sig", "q_sel", ["sel", V(cur), rnd.choice(sorted(members))]])
+        stmts.append(["sig", "q_use", ["proj", ["bin", "+", V("q_sel"), K(1)], "signal-X"]])
+    if tail != "none" and rnd.random() < 0.5:
+        stmts.append(["bun", "keep", ["bin", "+", V(cur), K(0)]])
+    return {"id": f"bundle-{index:04d}", "family": "bundle", "stmts": stmts}
+
+
+def fam_bundle_fixed():
+    ins = [["input", n, t, d] for (n, t, d) in B_INPUTS[:5]]
+    L3 = ["bundle", [["lit", "signal-B", K(5)], ["lit", "coal", K(-3)], ["lit", "steel-plate", K(100)]]]
+    LIN = ["bundle", [V("a"), V("c"), V("p")]]
+    LMIX = ["bundle", [V("a"), ["lit", "coal", K(4)]]]
+    progs = []
+
+    def add(name, body):
+        progs.append({"id": f"bfixed-{name}", "family": "fixed", "stmts": list(ins) + body})
+
+    for nm, lit in (("const", L3), ("in", LIN), ("mix", LMIX)):
+        add(f"lit-{nm}", [["bun", "b", lit]])
+        for op in ARITH:
+            rhs = K(3) if op in ("**", "<<", ">>") else K(7)
+            add(f"{nm}-opk-{op}", [["bun", "b", lit], ["bun", "r", ["bin", op, V("b"), rhs]]])
+        for op in ("+", "*", "-", "/", "AND"):
+            add(f"{nm}-ops-{op}", [["bun", "b", lit], ["bun", "r", ["bin", op, V("b"), V("s")]]])
+            add(f"{nm}-opt-{op}", [["bun", "b", lit], ["bun", "r", ["bin", op, V("b"), V("t")]]])  # scalar's signal is also a member
+        for op in CMPS:
+            add(f"{nm}-filter-{op}", [["bun", "b", lit], ["bun", "r", ["cond", ["cmp", op, V("b"), K(4)], V("b")]]])
+            add(f"{nm}-filterk-{op}", [["bun", "b", lit], ["bun", "r", ["cond", ["cmp", op, V("b"), K(4)], K(1)]]])
+            add(f"{nm}-filters-{op}", [["bun", "b", lit], ["bun", "r", ["cond", ["cmp", op, V("b"), V("s")], V("b")]]])
+            add(f"{nm}-gate-{op}", [["bun", "b", lit], ["bun", "r", ["cond", ["cmp", op, V("s"), K(4)], V("b")]]])
+            add(f"{nm}-any-{op}", [["bun", "b", lit], ["sig", "r", ["cmp", op, ["any", V("b")], K(4)]]])
+            add(f"{nm}-all-{op}", [["bun", "b", lit], ["sig", "r", ["cmp", op, ["all", V("b")], K(4)]]])
+        add(f"{nm}-sel", [["bun", "b", lit], ["sig", "r", ["proj", ["bin", "*", ["sel", V("b"), "coal" if nm != "in" else "iron-plate"], K(2)], "signal-X"]]])
+    add("nested", [["bun", "b", LIN], ["bun", "n", ["bundle", [V("b"), ["lit", "coal", K(3)]]]], ["bun", "r", ["bin", "*", V("n"), K(2)]]])
+    add("nested2", [["bun", "b", L3], ["bun", "b2", ["bundle", [V("a"), V("c")]]], ["bun", "n", ["bundle", [V("b"), V("b2")]]]])
+    add("zero-all", [["bun", "b", ["bundle", [["lit", "signal-B", K(0)], ["lit", "coal", K(0)]]]], ["sig", "r", ["cmp", ">", ["all", V("b")], K(5)]], ["sig", "r2", ["cmp", ">", ["any", V("b")], K(5)]]])
+    add("chain", [["bun", "b", LIN], ["bun", "x", ["bin", "*", V("b"), K(2)]], ["bun", "y", ["cond", ["cmp", ">", V("x"), K(10)], V("x")]], ["bun", "z", ["bin", "-", V("y"), V("s")]]])
+    add("two-users", [["bun", "b", LIN], ["bun", "x", ["bin", "*", V("b"), K(2)]], ["bun", "y", ["bin", "+", V("b"), K(1)]]])
+    add("computed-member", [["sig", "m", ["bin", "*", V("a"), K(2)]], ["bun", "b", ["bundle", [V("m"), V("c")]]], ["bun", "r", ["bin", "+", V("b"), K(1)]]])
+    add("wm-member", [["sig", "m", ["bin", "+", V("a"), V("t")]], ["bun", "b", ["bundle", [V("m"), ["lit", "signal-B", K(4)]]]], ["bun", "r", ["bin", "*", V("b"), K(3)]]])
+    add("empty", [["bun", "b", ["bundle", []]], ["bun", "r", ["bin", "+", V("b"), K(1)]]])
+    return progs
+
+
+def corpus_c02(tier):
+    n = 50 if tier == "quick" else 300
+    fixed = fam_bundle_fixed()
+    if tier == "quick":
+        fixed = [c for i, c in enumerate(fixed) if i % 3 == 0 or "mix" in c["id"] or not c["id"].split("-")[1] in ("const", "in", "mix")]
+    return fixed + [fam_bundle(i) for i in range(n)]
+
+
+# ======================================================================================
+#  C03 gated memory cells
+# ======================================================================================
+
+M_INPUTS = [("x", "signal-A", 10007), ("y", "signal-B", 10009), ("z", "iron-plate", 10037)]
+
+
+def _mem_prog(name, data, enable, mtype="signal-M", readers=1, extra=None, inputs=M_INPUTS, fam="mem"):
+    stmts = [["input", n, t, d] for (n, t, d) in inputs]
+    stmts.append(["mem", "m", mtype])
+    stmts.append(["write", "m", data, enable])
+    for i in range(readers):
+        if i == 0:
+            stmts.append(["sig", "r0", ["read", "m"]])
+        elif i == 1:
+            stmts.append(["sig", "r1", ["proj", ["bin", "+", ["read", "m"], K(1)], "signal-X"]])
+        else:
+            stmts.append(["sig", f"r{i}", ["proj", ["bin", "*", ["read", "m"], K(i)], "signal-Y"]])
+    if extra:
+        stmts += extra
+    return {"id": name, "family": fam, "stmts": stmts, "kind": "history"}
+
+
+def fam_mem_fixed():
+    X, Y, Z = V("x"), V("y"), V("z")
+    P = lambda e, t="signal-M": ["proj", e, t]  # noqa: E731
+    progs = []
+    progs.append(_mem_prog("mfixed-basic", P(X), ["cmp", ">", Y, K(0)], fam="fixed"))
+    progs.append(_mem_prog("mfixed-ident-enable", P(X), Y, fam="fixed"))
+    progs.append(_mem_prog("mfixed-typed-data", X, ["cmp", ">", Y, K(5)], mtype="signal-A", fam="fixed"))
+    progs.append(_mem_prog("mfixed-item-type", P(X, "iron-plate"), ["cmp", "!=", Y, K(0)], mtype="iron-plate", fam="fixed"))
+    progs.append(_mem_prog("mfixed-untyped-mem", P(X, "signal-Q"), ["cmp", ">", Y, K(0)], mtype=None, fam="fixed"))
+    progs.append(_mem_prog("mfixed-shared-input", P(["bin", "*", X, K(2)]), ["cmp", ">", X, K(10)], fam="fixed"))
+    progs.append(_mem_prog("mfixed-shared-deep-enable", P(X), ["cmp", ">", ["bin", "-", ["bin", "*", X, K(3)], K(4)], K(5)], fam="fixed"))
+    progs.append(_mem_prog("mfixed-deep-data", P(["bin", "+", ["bin", "*", X, K(3)], Z]), ["cmp", ">", Y, K(0)], fam="fixed"))
+    progs.append(_mem_prog("mfixed-deep-enable", P(X), ["cmp", ">", ["bin", "+", ["bin", "*", Y, K(3)], K(1)], K(5)], fam="fixed"))
+    progs.append(_mem_prog("mfixed-arith-enable", P(X), ["bin", "-", Y, K(3)], fam="fixed"))
+    progs.append(_mem_prog("mfixed-two-readers", P(X), ["cmp", ">", Y, K(0)], readers=2, fam="fixed"))
+    progs.append(_mem_prog("mfixed-three-readers", P(X), ["cmp", ">", Y, K(0)], readers=3, fam="fixed"))
+    progs.append(_mem_prog("mfixed-and-enable", P(X), ["and", ["cmp", ">", Y, K(0)], ["cmp", "<", Z, K(100)]], fam="fixed"))
+    progs.append(_mem_prog("mfixed-const-data", ["lit", "signal-M", K(42)], ["cmp", ">", Y, K(0)], fam="fixed"))
+    progs.append(_mem_prog("mfixed-enable-same-type", P(X, "signal-B"), ["cmp", ">", Y, K(0)], mtype="signal-B", fam="fixed"))
+    # two cells sharing an enable
+    two = _mem_prog("mfixed-two-cells", P(X), ["cmp", ">", Y, K(0)], fam="fixed")
+    two["stmts"] += [["mem", "n", "signal-N"], ["write", "n", P(Z, "signal-N"), ["cmp", ">", Y, K(0)]], ["sig", "s0", ["read", "n"]]]
+    progs.append(two)
+    two2 = _mem_prog("mfixed-two-cells-same-type", P(X), ["cmp", ">", Y, K(0)], fam="fixed")
+    two2["stmts"] += [["mem", "n", "signal-M"], ["write", "n", P(Z, "signal-M"), ["cmp", "<", Y, K(0)]], ["sig", "s0", ["proj", ["read", "n"], "signal-Y"]]]
+    progs.append(two2)
+    named_en = _mem_prog("mfixed-named-enable", P(X), V("en"), fam="fixed")
+    named_en["stmts"].insert(3, ["sig", "en", ["cmp", ">", Y, K(0)]])
+    progs.append(named_en)
+    return progs
+
+
+def fam_mem(index):
+    rnd = random.Random(f"mem-{index}")
+    g = ExprGen(rnd, ["x", "y", "z"])
+    share = rnd.random() < 0.4
+    dgen = ExprGen(rnd, ["x", "z"] if not share else ["x", "y", "z"])
+    egen = ExprGen(rnd, ["y"] if not share else ["x", "y"])
+    ddepth = rnd.choice([0, 0, 1, 1, 2])
+    edepth = rnd.choice([0, 1, 1, 2])
+    mtype = rnd.choice(["signal-M", "signal-M", "signal-A", "iron-plate", None])
+    data = dgen.sig(ddepth)
+    data = ["proj", data, mtype or "signal-Q"]
+    enable = egen.cmp(edepth) if rnd.random() < 0.75 else egen.sig(edepth)
+    c = _mem_prog(f"mem-{index:04d}", data, enable, mtype=mtype, readers=rnd.choice([1, 1, 2, 3]))
+    return c
+
+
+def corpus_c03(tier):
+    n = 24 if tier == "quick" else 160
+    return fam_mem_fixed() + [fam_mem(i) for i in range(n)]
+
+
+# ======================================================================================
+#  C04 self-referential unconditional writes
+# ======================================================================================
+
+
+def _loop_prog(name, body, readers=("r1",), mtype="signal-M", fam="loop", inputs=M_INPUTS[:2], extra_readers=True):
+    stmts = [["input", n, t, d] for (n, t, d) in inputs]
+    stmts.append(["mem", "m", mtype])
+    stmts += body
+    stmts.append(["sig", "r0", ["read", "m"]])
+    rd = []
+    if extra_readers:
+        stmts.append(["sig", "r1", ["proj", ["bin", "+", ["read", "m"], K(1)], "signal-X"]])
+        rd.append("r1")
+    return {"id": name, "family": fam, "stmts": stmts, "kind": "loop", "params": {"readers": rd}}
+
+
+def fam_loop_fixed():
+    R = ["read", "m"]
+    X, Y = V("x"), V("y")
+    P = lambda e, t="signal-M": ["proj", e, t]  # noqa: E731
+    progs = []
+
+    def add(name, body, **kw):
+        progs.append(_loop_prog(f"lfixed-{name}", body, fam="fixed", **kw))
+
+    add("counter", [["write", "m", ["bin", "+", R, K(1)], None]])
+    add("counter-item", [["write", "m", ["bin", "+", R, K(1)], None]], mtype="iron-plate")
+    add("counter-untyped-mem", [["write", "m", ["proj", ["bin", "+", R, K(1)], "signal-Q"], None]], mtype=None)
+    add("acc", [["write", "m", ["bin", "+", R, P(X)], None]])
+    add("modclock", [["write", "m", ["bin", "%", ["bin", "+", R, K(1)], K(10)], None]])
+    add("lcg", [["write", "m", ["bin", "%", ["bin", "+", ["bin", "*", R, K(3)], K(7)], K(17)], None]])
+    add("lcg-input", [["write", "m", ["bin", "%", ["bin", "+", ["bin", "*", R, K(3)], P(X)], K(17)], None]])
+    add("xorshift", [["write", "m", ["bin", "XOR", R, ["bin", "<<", ["bin", "+", R, K(1)], K(3)]], None]])
+    add("chain3", [["sig", "s1", ["bin", "+", R, K(1)]], ["sig", "s2", ["bin", "*", V("s1"), K(3)]], ["sig", "s3", ["bin", "%", V("s2"), K(17)]], ["write", "m", V("s3"), None]])
+    add("chain4", [["sig", "s1", ["bin", "+", R, K(1)]], ["sig", "s2", ["bin", "*", V("s1"), K(3)]], ["sig", "s3", ["bin", "%", V("s2"), K(17)]], ["sig", "s4", ["bin", "%", V("s3"), K(100)]], ["write", "m", V("s4"), None]])
+    add("chain-proj", [["sig", "s1", ["proj", ["bin", "+", R, K(1)], "signal-T"]], ["sig", "s2", ["proj", ["bin", "*", V("s1"), K(5)], "signal-M"]], ["write", "m", V("s2"), None]])
+    add("sub-input", [["write", "m", ["bin", "-", R, P(Y)], None]])
+    add("mul2", [["write", "m", ["bin", "+", ["bin", "*", R, K(2)], K(1)], None]])
+    add("twice-read", [["write", "m", ["bin", "+", ["bin", "+", R, R], K(1)], None]])
+    add("no-extra-reader", [["write", "m", ["bin", "+", R, K(2)], None]], extra_readers=False)
+    add("cond-reset", [["write", "m", ["cond", ["cmp", "<", R, K(9)], ["bin", "+", R, K(1)]], None]])
+    return progs
+
+
+def fam_loop(index):
+    rnd = random.Random(f"loop-{index}")
+    R = ["read", "m"]
+    mtype = rnd.choice(["signal-M", "signal-M", "signal-A", "iron-plate"])
+    steps = rnd.choice([1, 1, 2, 3, 4, 5])
+    named = rnd.random() < 0.5
+    body = []
+    cur = R
+    for i in range(steps):
+        op = rnd.choice(["+", "+", "-", "*", "%", "/", "XOR", "AND", "OR", "<<", ">>"])
+        if op in ("%", "/"):
+            rhs = K(rnd.choice([3, 7, 10, 17, 100]))
+        elif op in ("<<", ">>"):
+            rhs = K(rnd.choice([1, 2, 3]))
+        elif rnd.random() < 0.3:
+            rhs = ["proj", V(rnd.choice(["x", "y"])), mtype]
+        else:
+            rhs = K(rnd.choice([1, 2, 3, 5, 7, 255, -1]))
+        e = ["bin", op, cur, rhs]
+        if named and i < steps - 1:
+            body.append(["sig", f"s{i}", e])
+            cur = V(f"s{i}")
+        else:
+            cur = e
+    body.append(["write", "m", cur, None])
+    return _loop_prog(f"loop-{index:04d}", body, mtype=mtype, extra_readers=rnd.random() < 0.6)
+
+
+def corpus_c04(tier):
+    n = 20 if tier == "quick" else 120
+    return fam_loop_fixed() + [fam_loop(i) for i in range(n)]
+
+
+# ======================================================================================
+#  C05 set/reset latches
+# ======================================================================================
+
+L_INPUTS = [("t", "signal-T", 10007), ("u", "signal-U", 10009), ("v", "signal-V", 10037), ("s", "signal-S", 10039), ("r", "signal-R", 10061)]
+
+
+def _latch_prog(name, val, st, rs, order, ins, mtype="signal-L", bools=(), fam="latch"):
+    pool = {n: (n, t, d) for (n, t, d) in L_INPUTS}
+    stmts = [["input"] + list(pool[n]) for n in ins]
+    stmts.append(["mem", "m", mtype])
+    stmts.append(["latch", "m", val, st, rs, order])
+    stmts.append(["sig", "r0", ["read", "m"]])
+    stmts.append(["sig", "r1", ["proj", ["cmp", ">", ["read", "m"], K(0)], "signal-X"]])
+    return {"id": name, "family": fam, "stmts": stmts, "kind": "history", "params": {"bool_inputs": list(bools)}}
+
+
+def fam_latch_fixed():
+    T, U = V("t"), V("u")
+    progs = []
+    for order in ("sr", "rs"):
+        # one shared input, inlinable comparisons
+        for nm, (so, sc, ro, rc) in {
+            "hyst": ("<", 20, ">=", 80),
+            "hyst-rev": (">", 80, "<=", 20),
+            "touch": ("<", 50, ">=", 50),
+            "overlap": ("<", 50, ">=", 30),
+            "overlap2": ("<=", 50, ">", 10),
+            "eq": ("==", 5, "==", 7),
+            "ne": ("!=", 5, "==", 5),
+            "neg": ("<", -10, ">", 10),
+        }.items():
+            progs.append(_latch_prog(f"qfixed-{order}-{nm}", K(1), ["cmp", so, T, K(sc)], ["cmp", ro, T, K(rc)], order, ["t"], fam="fixed"))
+        progs.append(_latch_prog(f"qfixed-{order}-v5", K(5), ["cmp", "<", T, K(20)], ["cmp", ">=", T, K(80)], order, ["t"], fam="fixed"))
+        progs.append(_latch_prog(f"qfixed-{order}-vsig", ["proj", V("v"), "signal-L"], ["cmp", "<", T, K(20)], ["cmp", ">=", T, K(80)], order, ["t", "v"], fam="fixed"))
+        progs.append(_latch_prog(f"qfixed-{order}-two-inputs", K(1), ["cmp", ">", T, K(10)], ["cmp", ">", U, K(10)], order, ["t", "u"], fam="fixed"))
+        progs.append(_latch_prog(f"qfixed-{order}-two-inputs-v7", K(7), ["cmp", ">", T, K(10)], ["cmp", "<", U, K(0)], order, ["t", "u"], fam="fixed"))
+        progs.append(_latch_prog(f"qfixed-{order}-bool", K(1), V("s"), V("r"), order, ["s", "r"], bools=("s", "r"), fam="fixed"))
+        progs.append(_latch_prog(f"qfixed-{order}-bool-v9", K(9), V("s"), V("r"), order, ["s", "r"], bools=("s", "r"), fam="fixed"))
+        progs.append(_latch_prog(f"qfixed-{order}-bool-celltype", K(1), ["proj", V("s"), "signal-L"], V("r"), order, ["s", "r"], bools=("s", "r"), fam="fixed"))
+        progs.append(_latch_prog(f"qfixed-{order}-named-cmp", K(1), V("lo"), V("hi"), order, ["t"], fam="fixed"))
+        progs[-1]["stmts"].insert(1, ["sig", "lo", ["cmp", "<", T, K(20)]])
+        progs[-1]["stmts"].insert(2, ["sig", "hi", ["cmp", ">=", T, K(80)]])
+        progs.append(_latch_prog(f"qfixed-{order}-item-type", K(1), ["cmp", "<", T, K(20)], ["cmp", ">=", T, K(80)], order, ["t"], mtype="iron-plate", fam="fixed"))
+    return progs
+
+
+def fam_latch(index):
+    rnd = random.Random(f"latch-{index}")
+    order = rnd.choice(["sr", "rs"])
+    T, U = V("t"), V("u")
+    shape = rnd.choice(["shared", "shared", "two", "bool"])
+    val = rnd.choice([K(1), K(1), K(rnd.choice([2, 5, 100, -1])), ["proj", V("v"), "signal-L"]])
+    ins = []
+    bools = ()
+    if shape == "shared":
+        st = ["cmp", rnd.choice(CMPS), T, K(rnd.choice([-5, 0, 10, 20, 50]))]
+        rs = ["cmp", rnd.choice(CMPS), T, K(rnd.choice([0, 30, 50, 80, 100]))]
+        ins = ["t"]
+    elif shape == "two":
+        st = ["cmp", rnd.choice(CMPS), T, K(rnd.choice([0, 10, 50]))]
+        rs = ["cmp", rnd.choice(CMPS), U, K(rnd.choice([0, 10, 50]))]
+        ins = ["t", "u"]
+    else:
+        st, rs = V("s"), V("r")
+        ins = ["s", "r"]
+        bools = ("s", "r")
+    if val[0] == "proj":
+        ins.append("v")
+    return _latch_prog(f"latch-{index:04d}", val, st, rs, order, ins, mtype=rnd.choice(["signal-L", "signal-L", "signal-P"]) if val[0] != "proj" else "signal-L", bools=bools)
+
+
+def corpus_c05(tier):
+    n = 16 if tier == "quick" else 120
+    fixed = fam_latch_fixed()
+    return fixed + [fam_latch(i) for i in range(n)]
